@@ -113,12 +113,14 @@ func verifAvgOK(A, sum int64, n int) bool {
 // form 6: SELECT AVG(v), g2, COUNT(v), g1 FROM t GROUP BY g1, g2
 // form 7: form 1 on top of WHERE g2 > lit
 // form 8: SELECT g1, COUNT(*), COUNT(v) FROM t GROUP BY g1   with NULLs in v (nulls=1)
+// form 9: text  SELECT g1 AS <x|g2|v>, g2, count(*) FROM t GROUP BY g1, g2   (alias colliding with a column name)
+// form 10: the same with every column qualified (t.g1 ...)
 func verifH_C07_aggr() {
 	R := verifParam("rows", 2)
 	form := verifParam("form", 0)
 	lim := int32(verifParam("lim", 1000))
 	nullable := verifParam("nulls", 0) == 1
-	hasAvg := form != 3 && form != 4 && form != 8
+	hasAvg := form != 3 && form != 4 && form != 8 && form < 9
 	verifTag("rows", string(rune('0'+R)))
 
 	tbl := &verifStubTable{cols: []string{"g1", "g2", "v"}}
@@ -178,6 +180,28 @@ func verifH_C07_aggr() {
 		q.SelectList = sql.SelectList{avg, dc(col("", "g2"), ""), cntv, dc(col("", "g1"), "")}
 		q.GroupByClause = []sql.ColumnReference{col("", "g1"), col("", "g2")}
 		pAvg, pG2, pCntV, pG1, ngroup = 0, 1, 2, 3, 2
+	case 9, 10:
+		// as SQL text through the real scanner and parser (whose validation of the
+		// GROUP BY list the executor relies on): the first column carries an alias
+		// that is a fresh name, the name of the other grouping column, or the name
+		// of a column that is not selected; form 10 qualifies every column. The
+		// parser may refuse the statement (ambiguous column); if it accepts it the
+		// groups must be the true ones.
+		a := []string{"x", "g2", "v"}[verifChoice("alias", 3)]
+		text := "SELECT g1 AS " + a + ", g2, count(*) FROM t GROUP BY g1, g2"
+		if form == 10 {
+			text = "SELECT t.g1 AS " + a + ", t.g2, count(*) FROM t GROUP BY t.g1, t.g2"
+		}
+		verifTag("alias", a)
+		stmt, perr := parseSQL(text)
+		if perr != nil {
+			verifReach("refused-by-parser")
+			return
+		}
+		sel, isSel := stmt.(sql.Select)
+		verifAssert(isSel, "is-select")
+		q = sel
+		pG1, pG2, pCnt, ngroup = 0, 1, 2, 2
 	}
 	// WHERE for form 7
 	keep := make([]bool, R)
